@@ -12,15 +12,18 @@ RUN_MODULE = "C39.Run"
 TWO_PHASE = True
 SHARDS = 16
 RULE = ("case = scheduler seed + a random history over ONE real p2p Connection on a scripted Socket (internal_executor(false), the "
-        "harness keeps only an Executor clone): Connection clones, MessageStreams (unfiltered and two match rules), Proxies, "
-        "SignalStreams, derived from any live handle; drops in random order; method calls from the peer to an object-server method "
+        "harness keeps only an Executor clone): Connection clones, MessageStreams (unfiltered and two match rules), Proxies with "
+        "CacheProperties::No / Lazily / Yes (eager: build() starts the cache, the peer answers GetAll), lazy proxies whose cache is "
+        "started later by get_property or receive_property_changed (GetAll answered later, or never), blocking Proxies, SignalStreams "
+        "(receive_all_signals / receive_signal), derived from any live handle; drops in random order, AsyncDrop::async_drop of streams; method calls from the peer to an object-server method "
         "that stays in flight until the history releases it (and a method that returns at once); graceful_shutdown() and close() "
         "on Connection handles; ~8% of the ops name handles that do not exist. After every op the executor and the pending "
         "graceful_shutdown futures are polled in a seeded order until nothing moves; the harness prints, per op, whether the "
         "write half / read half of the socket have been dropped (what the peer sees as the transport closing) and which "
         "graceful_shutdown calls have returned, and the ordered record of replies written, close(), halves dropped, shutdowns "
         "returned. The model must show the same after every op; the spec oracle is an independent count (live handles + handlers "
-        "in flight). non-trivial = the last handle went while a handler was in flight, or a graceful_shutdown had to wait")
+        "in flight — what a proxy's cache started must go with the proxy). non-trivial = the last handle went while a handler was in "
+        "flight, a graceful_shutdown had to wait, or a property cache had started before everything was dropped")
 TRUSTED = ["harness/hfail: scripted Socket whose halves record their drop (src/sock.rs), gate-controlled handler, seeded poll loop (src/droprel.rs)"]
 ASSUMPTIONS = ["Arc/Weak (DESIGN Appendix B): the value is dropped exactly when the last strong reference is dropped; upgrade fails afterwards",
                "event_listener::Event: a listener created before notify completes (graceful_shutdown listens before it drops its handle)",
@@ -31,10 +34,11 @@ ASSUMPTIONS = ["Arc/Weak (DESIGN Appendix B): the value is dropped exactly when 
 
 
 def gen_case(rng, tier):
-    live = {0: "k"}           # id -> kind letter
+    live = {0: "k"}           # id -> kind letter: k connection, s stream, p proxy, g signal stream, b blocking proxy
+    cache = {}                # proxy id -> "n" no cache | "idle" | "init" | "run"
     nxt = 1
     ops = []
-    calls, released, inflight_possible = [], set(), []
+    calls, released = [], set()
     kid = 1
     n = rng.randint(4, 14 if tier == "quick" else 30)
 
@@ -44,31 +48,47 @@ def gen_case(rng, tier):
 
     for _ in range(n):
         r = rng.random()
-        if r < 0.08:
-            ops.append(rng.choice(["d%d", "G%d", "k%d:77", "s%d:78:A", "C%d", "g%d:0", "r%d"]) % rng.randint(40, 60))
+        if r < 0.07:
+            ops.append(rng.choice(["d%d", "G%d", "k%d:77", "s%d:78:A", "C%d", "g%d:0", "r%d", "c%d", "a%d", "D%d", "p%d:79:e"]) % rng.randint(40, 60))
             continue
         if r < 0.40:
-            kind = rng.choice(["k", "k", "s", "s", "s", "p", "g"])
-            if kind == "g":
-                src = some("p")
-            else:
-                src = some("ksp")
+            kind = rng.choice(["k", "k", "s", "s", "p", "p", "p", "g", "b"])
+            src = some("p") if kind == "g" else some("ksp")
             if src is None:
                 continue
             if kind == "s":
                 ops.append("s%d:%d:%s" % (nxt, src, rng.choice(["A", "B", "*", "A"])))
             elif kind == "g":
-                ops.append("g%d:%d" % (nxt, src))
+                ops.append("g%d:%d%s" % (nxt, src, rng.choice(["", ":s"])))
+            elif kind == "p":
+                mode = rng.choice(["e", "e", "l", "l", "n", ""])
+                ops.append("p%d:%d%s" % (nxt, src, (":" + mode) if mode else ""))
+                cache[nxt] = {"e": "run", "n": "n"}.get(mode, "idle")
             else:
                 ops.append("%s%d:%d" % (kind, nxt, src))
             live[nxt] = kind
             nxt += 1
-        elif r < 0.62:
+        elif r < 0.52:
+            # the property cache of a lazy proxy: start it, later let the peer answer GetAll (or never)
+            ps = [i for i, k in live.items() if k == "p"]
+            if ps:
+                h = rng.choice(ps)
+                if cache.get(h) == "init" and rng.random() < 0.7:
+                    ops.append("a%d" % h)
+                    cache[h] = "run"
+                else:
+                    ops.append(rng.choice(["c%d", "v%d"]) % h)
+                    if cache.get(h) == "idle":
+                        cache[h] = "init"
+        elif r < 0.68:
             if live and (len(live) > 1 or rng.random() < 0.3):
                 h = rng.choice(list(live))
-                ops.append("d%d" % h)
+                if live[h] in "sg" and rng.random() < 0.3:
+                    ops.append("D%d" % h)
+                else:
+                    ops.append("d%d" % h)
                 del live[h]
-        elif r < 0.80:
+        elif r < 0.82:
             if rng.random() < 0.25:
                 ops.append("f%d" % kid)
             else:
@@ -112,13 +132,23 @@ def _snaps(impl_out):
     return []
 
 
+def _ga(impl_out):
+    for f in impl_out.split(";"):
+        if f.startswith("ga="):
+            try:
+                return int(f[3:])
+            except ValueError:
+                return 0
+    return 0
+
+
 def nontrivial(case, impl_out):
-    ev = impl_out.split("events=")[-1]
-    return ("y" in ev and "dw" in ev) or "gs" in ev
+    ev = impl_out.split("events=")[-1].split(";")[0]
+    return ("y" in ev and "dw" in ev) or "gs" in ev or (_ga(impl_out) > 0 and "dw" in ev)
 
 
 def classify(case, impl_out):
-    ev = impl_out.split("events=")[-1].split(".")
+    ev = impl_out.split("events=")[-1].split(";")[0].split(".")
     sn = _snaps(impl_out)
     closed = bool(sn) and sn[-1].startswith("W")
     waited = False
@@ -127,7 +157,8 @@ def classify(case, impl_out):
         waited = any(e.startswith("y") for e in ev[:i])
     return "%s:%s:%s:%s" % ("closed" if closed else "still-open", "graceful" if any(e.startswith("gs") for e in ev) else
                             ("graceful-pending" if "G" in case.split(" ")[-1] and closed is False else "no-graceful"),
-                            "handler-replied-before-close" if waited else "-", "close()" if "cl" in ev else "-")
+                            "handler-replied-before-close" if waited else "-",
+                            ("close()" if "cl" in ev else "-") + (":cache-started" if _ga(impl_out) > 0 else ""))
 
 
 def search(rng, bad_cases):
@@ -138,7 +169,8 @@ def search(rng, bad_cases):
 ENABLED = True
 LEVEL = "proof"
 LEVEL_TEXT = ("Theorems in coq/theories/Properties/C39.v over a reference-count model of ConnectionInner: strong references are held by "
-              "Connection values, MessageStreams, Proxies, SignalStreams, queued remove-match tasks and method handlers in flight; the "
+              "Connection values, MessageStreams, Proxies (plus what their property-cache task holds, owned by the proxy: C39_proxy_owns_cache), "
+              "blocking Proxies, SignalStreams, cancelled cache tasks not yet dropped, queued remove-match tasks and method handlers in flight; the "
               "object server and its dispatch task hold weak references. For every history of operations and every interleaving of the "
               "internal steps: the transport is closed exactly when no strong reference is left — never before (C39_close, "
               "C39_not_before); replies are written only before the transport goes and graceful_shutdown returns only after it "
